@@ -9,6 +9,7 @@ import Peppi.Lemmas.C04C
 import Peppi.Lemmas.C04G
 import Peppi.Lemmas.FrameStep
 import Peppi.Lemmas.PortMap
+import Peppi.PremisesViews
 set_option linter.unusedVariables false
 namespace Peppi.Props.C04
 
@@ -84,5 +85,60 @@ open Extracted in
 theorem portMap_of_gameStart (T : TextOracle) (b : Bytes) (s : Start) (h : gameStart T b = .ok s) :
     PortMapOK (portIdxOf (portOccupancy s)) (portOccupancy s) ∧ ∀ p ∈ portOccupancy s, p.port < 256 :=
   _root_.Peppi.portMap_of_gameStart T b s h
+
+/- from `Peppi.PremisesViews` -/
+open Extracted in
+theorem views_End : structOK true true End.views = true :=
+  _root_.Peppi.views_End 
+
+/- from `Peppi.PremisesViews` -/
+open Extracted in
+theorem views_Item : structOK false true Item.views = true :=
+  _root_.Peppi.views_Item 
+
+/- from `Peppi.PremisesViews` -/
+open Extracted in
+theorem views_ItemMisc : structOK false false ItemMisc.views = true :=
+  _root_.Peppi.views_ItemMisc 
+
+/- from `Peppi.PremisesViews` -/
+open Extracted in
+theorem views_Position : structOK false true Position.views = true :=
+  _root_.Peppi.views_Position 
+
+/- from `Peppi.PremisesViews` -/
+open Extracted in
+theorem views_Post : structOK false true Post.views = true :=
+  _root_.Peppi.views_Post 
+
+/- from `Peppi.PremisesViews` -/
+open Extracted in
+theorem views_Pre : structOK false true Pre.views = true :=
+  _root_.Peppi.views_Pre 
+
+/- from `Peppi.PremisesViews` -/
+open Extracted in
+theorem views_Start : structOK false true Start.views = true :=
+  _root_.Peppi.views_Start 
+
+/- from `Peppi.PremisesViews` -/
+open Extracted in
+theorem views_StateFlags : structOK false false StateFlags.views = true :=
+  _root_.Peppi.views_StateFlags 
+
+/- from `Peppi.PremisesViews` -/
+open Extracted in
+theorem views_TriggersPhysical : structOK false true TriggersPhysical.views = true :=
+  _root_.Peppi.views_TriggersPhysical 
+
+/- from `Peppi.PremisesViews` -/
+open Extracted in
+theorem views_Velocities : structOK false true Velocities.views = true :=
+  _root_.Peppi.views_Velocities 
+
+/- from `Peppi.PremisesViews` -/
+open Extracted in
+theorem views_Velocity : structOK false true Velocity.views = true :=
+  _root_.Peppi.views_Velocity 
 
 end Peppi.Props.C04
